@@ -87,10 +87,6 @@ Definition rres_eqb (a b : rres) : bool :=
   | _, _ => false
   end.
 
-Definition set_ws (s : state) (f : nat -> wstate) : state :=
-  mk (nthreads s) (handle s) (sender s) (queue s) (lock s) f (rchan s) (rec_handle s) (joining s)
-     (submitted s) (done s) (panicked s).
-
 (* result of a successful recv by worker w: queue popped, mutex released, new worker state *)
 Definition after_recv (s : state) (w : nat) (q : list msg) (v : wstate) : state :=
   mk (nthreads s) (handle s) (sender s) q None (upd (ws s) w v) (rchan s) (rec_handle s) (joining s)
@@ -269,6 +265,10 @@ Definition worker_label (l : label) : bool :=
   | Acquire _ | Recv _ _ | Finish _ | Panic _ | Notify _ | Recover _ => true
   | _ => false
   end.
+
+(* ids submitted / handed to a worker by one label (for the FIFO statement) *)
+Definition exec_of (l : label) : list nat := match l with Execute id => [id] | _ => [] end.
+Definition recv_of (l : label) : list nat := match l with Recv _ (RTask id) => [id] | _ => [] end.
 
 (* the end state the property asks for: every worker has exited and every submitted task has run *)
 Definition all_exited (s : state) : Prop := forall w, ws s w = Exited.
